@@ -442,6 +442,15 @@ func c08Invocations(rep *Reporter) int {
 			return 0
 		}
 		solo[p] = readFileOr(filepath.Join(dir, p, "derived.gen.go"), "")
+		// the same invocation again, over the tree the first run left behind (twice)
+		for again := 2; again <= 3; again++ {
+			r2 := goderive(dir, "./"+p)
+			if got := readFileOr(filepath.Join(dir, p, "derived.gen.go"), ""); r2.Exit != 0 || got != solo[p] {
+				rep.Violation("bytes-differ-on-rerun|pkg="+p, fmt.Sprintf("run %d of goderive ./%s over unchanged sources (exit %d) leaves other bytes than the first run: %s", again, p, r2.Exit, firstDiff([]byte(solo[p]), []byte(got))),
+					map[string]interface{}{"engine": "e2", "files": files, "args": []string{"./" + p}})
+				break
+			}
+		}
 		removeAll(dir)
 		if solo[p] == "" {
 			rep.Violation("solo-run-writes-nothing|pkg="+p, fmt.Sprintf("goderive ./%s exits 0 but leaves no derived.gen.go although the package holds derive calls", p),
